@@ -11,6 +11,8 @@
 // Part 4 (server.go): concurrent uncompressed self-describing requests against a server built by
 // regattaserver.NewServer (regatta's default server options) with the real KVServer; judged at the
 // handler and in the store.
+// Part 5 (repl.go): a seeded history on a real single-node engine, polled through the real log
+// replication server; every replicated command judged against the proposed one.
 package main
 
 import (
@@ -88,7 +90,8 @@ func main() {
 		"decoded by the registered codec into a fresh object and, for Command and SnapshotChunk, into objects recycled with ResetVT / ReturnToVTPool after holding a different larger message; " +
 		"compressors: seeded payloads 0 B–8 MiB of six kinds, 16/32/64 goroutines exchanging compressed payloads; streams: seeded command sequences (0–2000 commands, values 0 B–2 MiB) " +
 		"written to a snapshot file and streamed with planned short reads; server: 8/12/16 concurrent uncompressed clients with self-describing put/range/delete/txn requests (<256 B … 1 MiB) " +
-		"against regattaserver.NewServer + KVServer, judged at the handler and in the store. Non-trivial = (a) a Command with ≥1 oneof arm and ≥1 optional field set decoded into a recycled object that decodes equal, " +
+		"against regattaserver.NewServer + KVServer, judged at the handler and in the store; replicate: seeded histories (range/single-key deletes, puts, txns) on a real engine polled through LogServer.Replicate " +
+		"from several start indices with/without gzip at message limits 1024 B and default, every command judged against the proposed one. Non-trivial = (a) a Command with ≥1 oneof arm and ≥1 optional field set decoded into a recycled object that decodes equal, " +
 		"distinct by encoding, or (b) a stream with a chunk boundary strictly inside an 8-byte length prefix, distinct by seed and chunk lengths")
 	r.Assume("generated strings are valid UTF-8 and generated messages carry no unknown fields",
 		"nil and empty are the same value for bytes fields without presence (they are the same on the wire)",
@@ -152,6 +155,14 @@ func main() {
 			var c streamCase
 			_ = json.Unmarshal(doc.Case, &c)
 			runStreamCase(se, c)
+		case "replicate":
+			// which pooled object serves which entry is schedule dependent: up to 3 attempts
+			var c replCase
+			_ = json.Unmarshal(doc.Case, &c)
+			for i := 0; i < 3 && r.Violations() == 0; i++ {
+				runReplCase(r, c)
+			}
+			raceVerdicts(r)
 		case "server":
 			// schedule dependent: the round is repeated until it fails again (at most 5 times)
 			var c serverCase
@@ -219,7 +230,7 @@ func main() {
 
 	r.FloorDistinct("oneof_states_sampled", int64(len(oneofs)))
 	r.FloorDistinct("optional_field_states_sampled", int64(len(opts)))
-	r.FloorCount("codec_round_trips", int64(r.Pick(15000, 150000)))
+	r.FloorCount("codec_round_trips", int64(r.Pick(12000, 150000)))
 	r.FloorCount("recycled_decodes", int64(r.Pick(5000, 60000)))
 	r.FloorCount("pool_returned_same_object", int64(r.Pick(500, 6000)))
 	r.FloorCount("compressor_round_trips", int64(r.Pick(600, 6000)))
@@ -228,8 +239,12 @@ func main() {
 	r.FloorCount("streams", int64(r.Pick(140, 1700)))
 	r.FloorCount("streams_with_boundary_inside_length_prefix", int64(r.Pick(40, 450)))
 	r.FloorDistinct("stream_variants", int64(r.Pick(20, 30)))
-	r.FloorCount("server_requests", int64(r.Pick(3000, 40000)))
-	r.FloorCount("server_requests_held_while_another_was_received", int64(r.Pick(1500, 20000)))
+	r.FloorCount("replicated_commands_judged", int64(r.Pick(1200, 15000)))
+	r.FloorCount("replicated_single_key_deletes_judged", int64(r.Pick(150, 2000)))
+	r.FloorCount("replicate_polls", int64(r.Pick(80, 800)))
+	r.FloorDistinct("replicate_leader_message_limits", 2)
+	r.FloorCount("server_requests", int64(r.Pick(2400, 40000)))
+	r.FloorCount("server_requests_held_while_another_was_received", int64(r.Pick(1200, 20000)))
 	r.FloorDistinct("server_request_size_classes", 4)
 	r.FloorNontrivial(int64(r.Pick(300, 12000)))
 	r.FloorCount("oracles_agree", 1)
@@ -337,6 +352,17 @@ func runAll(r *ev.Run, ce *codecEnv, se *streamEnv) {
 			}(lane)
 		}
 	}
+	if parts == "" || strings.Contains(parts, "replicate") {
+		lanes.Add(1)
+		go func() {
+			defer lanes.Done()
+			t0 := time.Now()
+			for _, rc := range replPlan(r) {
+				runReplCase(r, rc)
+			}
+			r.Extra("wall_s_replicate_lane", time.Since(t0).Seconds())
+		}()
+	}
 	if parts == "" || strings.Contains(parts, "server") {
 		lanes.Add(1)
 		go func() {
@@ -419,6 +445,30 @@ func classifyStack(fns []string) (string, bool) {
 	return "?", false
 }
 
+// thirdPartyEngineRace: both access stacks run through dragonboat / pebble / memberlist code and no
+// frame of the driver's own packages is involved.
+func thirdPartyEngineRace(blk string) bool {
+	sections := strings.Split(strings.TrimSpace(blk), "\n\n")
+	if len(sections) < 2 {
+		return false
+	}
+	for _, s := range sections[:2] {
+		tp := false
+		for _, f := range stackFuncs(s) {
+			if strings.HasPrefix(f, "main.") || strings.HasPrefix(f, "verifharness/") {
+				return false
+			}
+			if strings.HasPrefix(f, "github.com/lni/") || strings.HasPrefix(f, "github.com/cockroachdb/") || strings.HasPrefix(f, "github.com/hashicorp/memberlist") {
+				tp = true
+			}
+		}
+		if !tp {
+			return false
+		}
+	}
+	return true
+}
+
 func raceVerdicts(r *ev.Run) {
 	prefix := raceLogPrefix()
 	if prefix == "" {
@@ -426,7 +476,7 @@ func raceVerdicts(r *ev.Run) {
 		return
 	}
 	files, _ := filepath.Glob(prefix + ".*")
-	total, regatta, other := 0, 0, 0
+	total, regatta, other, third := 0, 0, 0, 0
 	for _, f := range files {
 		b, err := os.ReadFile(f)
 		if err != nil {
@@ -457,6 +507,12 @@ func raceVerdicts(r *ev.Run) {
 				regatta++
 				violationOnce(r, "race:"+strings.Join(names, "|"), "data race reported on state of the code under test: "+strings.Join(names, " vs "),
 					raceWitness{Case: anyCase{Part: "race"}, Report: rep, Note: "schedule dependent; --replay re-runs the workload of this seed and tier"})
+			} else if thirdPartyEngineRace(blk) {
+				// inside the embedded engine's own dependencies (dragonboat, pebble, memberlist): listed, not deciding
+				third++
+				if third <= 3 {
+					r.Note("race report entirely inside third-party engine code: " + strings.Join(names, " vs "))
+				}
 			} else {
 				other++
 				if other <= 3 {
@@ -466,7 +522,7 @@ func raceVerdicts(r *ev.Run) {
 			}
 		}
 	}
-	r.Extra("race_reports", map[string]int{"total": total, "with_regatta_frame": regatta, "without_regatta_frame": other})
+	r.Extra("race_reports", map[string]int{"total": total, "with_regatta_frame": regatta, "third_party_engine_only": third, "without_regatta_frame": other})
 	if other > 0 {
 		// cannot be told apart from a defect of the driver: do not pass silently
 		r.Inconclusive(fmt.Sprintf("%d race report(s) without a regatta frame", other))
